@@ -68,7 +68,7 @@ func init() {
 	}), info)
 	check.RegisterProp("C05", plan([]string{"C05"}, []fam{{"entities", 7, 8}, {"modules", 4, 7}}, nil), info)
 	check.RegisterProp("C06", plan([]string{"C06"}, []fam{{"entities", 7, 8}, {"components", 5, 7}, {"modules", 4, 7}}, nil), info)
-	check.RegisterProp("C12", plan([]string{"C12"}, []fam{{"components", 5, 8}, {"components-ids", 3, 6}}, nil), info)
-	check.RegisterProp("C13", plan([]string{"C13"}, []fam{{"components", 5, 8}}, nil), info)
-	check.RegisterProp("C16", plan([]string{"C16"}, []fam{{"modules", 4, 10}}, nil), info)
+	check.RegisterProp("C12", plan([]string{"C12"}, []fam{{"components", 6, 8}, {"components-ids", 4, 6}}, nil), info)
+	check.RegisterProp("C13", plan([]string{"C13"}, []fam{{"components", 6, 8}}, nil), info)
+	check.RegisterProp("C16", plan([]string{"C16"}, []fam{{"modules", 7, 10}}, nil), info)
 }
